@@ -65,8 +65,11 @@ impl Encodable for SecretMeta {
         self.date_created.encode(&mut *writer).await?;
         self.last_updated.encode(&mut *writer).await?;
         writer.write_string(&self.label).await?;
-        writer.write_u32(self.tags.len() as u32).await?;
-        for tag in &self.tags {
+        // Sorted so that equal values encode to the same bytes
+        let mut tags = self.tags.iter().collect::<Vec<_>>();
+        tags.sort();
+        writer.write_u32(tags.len() as u32).await?;
+        for tag in tags {
             writer.write_string(tag).await?;
         }
         writer.write_bool(self.urn.is_some()).await?;
@@ -419,6 +422,9 @@ impl Encodable for Secret {
                 write_user_data(user_data, writer).await?;
             }
             Self::List { items, user_data } => {
+                // Sorted so that equal values encode to the same bytes
+                let mut items = items.iter().collect::<Vec<_>>();
+                items.sort_by(|a, b| a.0.cmp(b.0));
                 writer.write_u32(items.len() as u32).await?;
                 for (k, v) in items {
                     writer.write_string(k).await?;
